@@ -59,7 +59,8 @@ func (x *NotExpr) Eval(ok func(tag string) bool) bool {
 func (x *NotExpr) String() string {
 	s := x.X.String()
 	switch x.X.(type) {
-	case *AndExpr, *OrExpr:
+	case *AndExpr, *OrExpr, *NotExpr:
+		// "!!x" is rejected by the parser (double negation), so !(!x) keeps its parentheses.
 		s = "(" + s + ")"
 	}
 	return "!" + s
